@@ -42,7 +42,11 @@ CFG = dict(
              "`Untouched` (hypothesis of exec_only_if_changed) is coarser than the property text: it counts as a change (i) a re-wiring of ANY node "
              "in the cone, also one that reconnects the same source, and (ii) a Set of a parameter in the cone even with an unchanged value "
              "(the code bumps the version in both cases and re-executes; the model mirrors that) — so 'changed' means 'was written', not 'differs'",
-             "Process() errors (`sn.err`) and subscriptions (`Alert`) are not modelled",
+             "Process() errors: the clean code stores the value returned next to the error, bumps the version and never looks at sn.err, so a "
+             "failing processor is just an `fn` in the model; half of the harness processors fail depending on their inputs (a change that makes "
+             "State()/Outdated() react to errors is seen by the exact execution-trace comparison). Subscriptions (`Alert`) are not modelled",
+             "parameter messages: only ApplyMessage of parameter.Value[int | []int | struct{A,B int} | map[string]int] and ValueNode.Set are "
+             "exercised (accepted = replace, undecodable = no-op: Op.rejectedMessage); other parameter types (File is in C13, Image, ...) are not",
              "type mismatch between an output and a port (reflect.Set panic) is not modelled; ports are all of one value type",
              "Dependencies() order: sorted field names are modelled as port index order; the sort itself (sort.Strings, "
              "reflection) is exercised by c11.holds.deporder, not proved",
@@ -66,7 +70,8 @@ CFG = dict(
              "struct input and bump its version; values stay correct) — known finding C11-skipping-processor, exhibited on the real "
              "nodes.Struct on every run by fixed witness histories. Tie: the real nodes.Struct / ValueNode / parameter.Value over 15 "
              "all-reading processor types plus one skipping type on chains, diamonds, ladders, shared subgraphs, random DAGs and order-changing "
-             "re-wirings; after EVERY operation of random histories the cache, version and state of every node and the executed processors are "
+             "re-wirings, with processors whose Process() returns an error depending on its inputs, and with composite-typed parameter.Value "
+             "parameters receiving accepted, partial and rejected messages; after EVERY operation of random histories the cache, version and state of every node and the executed processors are "
              "compared exactly with the model; fresh / no_spurious / version / dependency-order predicates on the implementation.",
         note="Trusted: Lean kernel + 3 axioms; harness. KNOWN FINDING (the run prints KNOWN-FINDING, exit 0): processors that skip a wired "
              "struct-node input re-execute on idle reads — the no-spurious / version-only-on-change clauses of C11 are false for them; "
